@@ -330,6 +330,13 @@ func zzH_C17() {
 			}
 		}
 	} else {
+		// derivable: Parse may still fail, but only with the error of a documented
+		// semantic restriction (bad number or regular expression, unknown function,
+		// script, value-group or two-@ comparison) - never with anything else
+		if err != nil {
+			k := zzErrKind(err)
+			zzAssert(k == "InvalidSyntax" || k == "InvalidArgument" || k == "FunctionNotFound" || k == "NotSupported", "derivable-path-fails-only-with-a-documented-restriction")
+		}
 		if es, isSyn := err.(ErrorInvalidSyntax); isSyn {
 			zzAssert(es.reason != msgErrorInvalidSyntaxUnrecognizedInput, "accepted-by-grammar-is-not-unrecognized")
 			zzAssert(es.position >= 0 && es.position <= len(runes), "error-position-inside-path")
